@@ -28,8 +28,6 @@ def check_bytes(data: bytes, which=("C01", "C04")):
         from pyrtcm import RTCMMessage
 
         k, v = guarded(lambda: RTCMMessage(payload=body, labelmsm=1 + ((sel >> 2) & 1)), f"RTCMMessage({body.hex()[:60]}..)")
-        if k == "ok":
-            guarded(lambda: (str(v), v.serialize()), "str/serialize")
         return "ctor-" + k
     if mode == 1:
         from pyrtcm import RTCMReader
